@@ -34,7 +34,7 @@ def frame_level(k):
 
 
 def gen_scene(rng, *, single=False, max_frames=4, max_animals=3, allow_empty_inst=True, allow_pred=True,
-              min_hw=40, max_hw=120, two_videos_p=0.3, nan_p=0.25):
+              min_hw=40, max_hw=120, two_videos_p=0.3, nan_p=0.25, empty_frames=False):
     """A JSON-able description of a tiny labelled project."""
     n_nodes = rng.choice([2, 3, 4, 5])
     # random tree skeleton with random edge listing
@@ -82,6 +82,10 @@ def gen_scene(rng, *, single=False, max_frames=4, max_animals=3, allow_empty_ins
             if rng.random() < 0.3 and any(p[0] != p[0] for p in i["pts"]) and any(p[0] == p[0] for p in i["pts"]):
                 i["hidden"] = {str(j): [round(rng.uniform(2, W - 3), 2), round(rng.uniform(2, H - 3), 2)] for j, p in enumerate(i["pts"]) if p[0] != p[0]}
         frames.append({"video": v, "frame_idx": fi, "instances": insts})
+    if empty_frames and len(frames) >= 2 and rng.random() < 0.3:
+        # a labelled frame that holds nothing but an empty instance (it yields no sample) - listed before populated frames
+        j = rng.randrange(0, len(frames) - 1)
+        frames[j]["instances"] = [{"pts": [[float("nan")] * 2] * n_nodes, "pred": False}]
     return {"n_nodes": n_nodes, "edges": edges, "sizes": sizes, "frames": frames, "n_video_frames": 12}
 
 
